@@ -37,7 +37,7 @@ def setup():
     arrays.patch_module(v, scipy=stubs.scipy_facade())
 
 
-def case_saturation(ctx, nc, ns, win, per_channel, sym_fs):
+def case_saturation(ctx, nc, ns, win, per_channel, sym_fs, as_list=False):
     import ibldsp.voltage as v
     import scipy.signal
     d = [[ctx.real(f"d{c}_{t}", -10, 10) for t in range(ns)] for c in range(nc)]
@@ -45,6 +45,8 @@ def case_saturation(ctx, nc, ns, win, per_channel, sym_fs):
     if per_channel:
         V = [ctx.real(f"V{c}", Fraction(1, 100), 10) for c in range(nc)]
         maxv = arrays.mk(list(V), tag=np.dtype(np.float64))        # e.g. the reader's range_volts, hoisted out of a batch loop by the caller
+        if as_list:
+            maxv = list(V)                                           # per-channel ranges given as a plain Python list
     else:
         V0 = ctx.real("V", Fraction(1, 100), 10)
         V = [V0] * nc
@@ -54,7 +56,7 @@ def case_saturation(ctx, nc, ns, win, per_channel, sym_fs):
     s = ctx.real("v_per_sec")
     ctx.assume(s > 0)
     fs = ctx.real("fs", 1, 10 ** 6) if sym_fs else 30000
-    flags, mute = v.saturation(data, maxv, v_per_sec=s, fs=fs, proportion=p, mute_window_samples=win)
+    flags, mute = ctx.call("saturation", v.saturation, data, maxv, v_per_sec=s, fs=fs, proportion=p, mute_window_samples=win)
     if per_channel:
         again, _ = v.saturation(data, maxv, v_per_sec=s, fs=fs, proportion=p, mute_window_samples=win)
         ctx.oblige("second_identical_call_gives_the_same_flags", tuple(again.shape) == tuple(flags.shape) and all_([core.eq(again[t], flags[t]) for t in range(ns)]) if tuple(again.shape) == tuple(flags.shape) else False)
@@ -86,10 +88,10 @@ def case_saturation(ctx, nc, ns, win, per_channel, sym_fs):
         ctx.oblige("far_from_flags_mute_is_one", implies(not_(near), core.eq(m, 1)), detail={"t": t})
         acc = 0
         for j in range(ns):
-            k = t - j + h
+            k = t - j + (win - 1) // 2          # centring of a 'same' convolution (for odd windows this is the half-width)
             if 0 <= k < win:
                 acc = acc + _n(F[j]) * float(w[k])
-        expect = core.ite(1 - acc >= 0, 1 - acc, 0)
+        expect = core.ite(F[t], 0, core.ite(1 - acc >= 0, 1 - acc, 0))
         ctx.oblige("mute_is_function_of_flags_only", core.eq(m, expect), detail={"t": t})
 
 
@@ -110,6 +112,13 @@ def cases(tier):
                 cs.append(Case(f"sat_{nc}x{ns}_w{win}_{'perch' if pc else 'scalar'}", "case_saturation",
                                {"nc": nc, "ns": ns, "win": win, "per_channel": pc, "sym_fs": False}, timeout_s=900))
     cs.append(Case("sat_2x3_w3_symfs", "case_saturation", {"nc": 2, "ns": 3, "win": 3, "per_channel": False, "sym_fs": True}, timeout_s=900))
+    # degenerate but legal sizes: one channel, one sample, a hard mute (window of one sample), an even window
+    cs.append(Case("sat_2x3_w3_range_list", "case_saturation", {"nc": 2, "ns": 3, "win": 3, "per_channel": True, "sym_fs": False, "as_list": True}, timeout_s=900))
+    cs.append(Case("sat_1x3_w3_scalar", "case_saturation", {"nc": 1, "ns": 3, "win": 3, "per_channel": False, "sym_fs": False}, timeout_s=900))
+    cs.append(Case("sat_1x3_w3_perch", "case_saturation", {"nc": 1, "ns": 3, "win": 3, "per_channel": True, "sym_fs": False}, timeout_s=900))
+    cs.append(Case("sat_2x1_w3_scalar", "case_saturation", {"nc": 2, "ns": 1, "win": 3, "per_channel": False, "sym_fs": False}, timeout_s=900))
+    cs.append(Case("sat_2x3_w1_scalar", "case_saturation", {"nc": 2, "ns": 3, "win": 1, "per_channel": False, "sym_fs": False}, timeout_s=900))
+    cs.append(Case("sat_2x4_w4_scalar", "case_saturation", {"nc": 2, "ns": 4, "win": 4, "per_channel": False, "sym_fs": False}, timeout_s=900))
     return cs
 
 
@@ -122,6 +131,7 @@ def twins(tier):
         Twin("and_instead_of_or", m, "np.logical_or(saturation > proportion, n_diff_saturated > proportion)", "np.logical_and(saturation > proportion, n_diff_saturated > proportion)", c0),
         Twin("range_98_on_data", m, "np.abs(data) > max_voltage * 0.98", "np.abs(data) * 0.98 > max_voltage", c0),
         Twin("mute_not_clipped", m, "mute = np.maximum(0, 1 - scipy.signal.convolve(saturation, win, mode='same'))", "mute = 1 - scipy.signal.convolve(saturation, win, mode='same')", c0),
+        Twin("flagged_samples_not_forced_to_zero", m, "    mute[saturation] = 0  # a taper with an even number of samples has no central sample equal to 1\n", "", ["sat_2x4_w4_scalar"]),
         Twin("mean_over_time", m, "saturation = np.mean(np.abs(data) > max_voltage * 0.98, axis=0)", "saturation = np.mean(np.abs(data) > max_voltage * 0.98, axis=0) * 0 + np.mean(np.abs(data) > max_voltage * 0.98)", c0),
     ]
 
@@ -138,8 +148,12 @@ F = lambda s: float(Fraction(s))
 d = np.array([[F(x) for x in r] for r in {d}])
 V = {('np.array([F(x) for x in %r])' % V) if params['per_channel'] else 'F(%r)' % V}
 p, s, fs, win = F({str(m['proportion'])!r}), F({str(m['v_per_sec'])!r}), F({fs!r}), {win}
+if {bool(params.get('as_list'))}: V = list(V)
 V0 = np.copy(V)
-flags, mute = v.saturation(d.copy(), V, v_per_sec=s, fs=fs, proportion=p, mute_window_samples=win)
+try:
+    flags, mute = v.saturation(d.copy(), V, v_per_sec=s, fs=fs, proportion=p, mute_window_samples=win)
+except Exception as e:
+    reproduced(f'saturation raised {{type(e).__name__}}: {{e}} on {{d.shape[0]}} channels x {{d.shape[1]}} samples with a mute window of {{win}} samples')
 nc, ns = d.shape
 again, _ = v.saturation(d.copy(), V, v_per_sec=s, fs=fs, proportion=p, mute_window_samples=win)
 if not np.array_equal(again, flags): reproduced(f'a second identical call returns other flags: {{flags}} then {{again}}')
@@ -148,8 +162,8 @@ over = (np.abs(d) > (Vc * 0.98)[:, None]).sum(0)
 dd = np.abs(np.diff(d, axis=1))
 ge = np.r_[(dd >= s * fs).sum(0), 0]; gt = np.r_[(dd > s * fs).sum(0), 0]
 upper = (over > p * nc) | (ge > p * nc); lower = (over > p * nc) | (gt > p * nc)
-w = scipy.signal.windows.cosine(win); h = win // 2
-exp = np.array([max(0.0, 1 - sum(float(flags[j]) * w[t - j + h] for j in range(ns) if 0 <= t - j + h < win)) for t in range(ns)])
+w = scipy.signal.windows.cosine(win); h = (win - 1) // 2
+exp = np.array([0.0 if flags[t] else max(0.0, 1 - sum(float(flags[j]) * w[t - j + h] for j in range(ns) if 0 <= t - j + h < win)) for t in range(ns)])
 print('flags', flags, 'upper', upper, 'lower', lower, 'mute', mute, 'exp', exp)
 bad = []
 if np.shape(flags) != (ns,) or np.shape(mute) != (ns,): reproduced(f'flags {{np.shape(flags)}} / mute {{np.shape(mute)}} do not have one entry per sample ({{ns}})')
